@@ -321,4 +321,116 @@ theorem sorted_presOf (hpres : ∀ s e i0 i1 : ETime, demePresent s e i0 i1 = (t
         | cons a t => rfl
       simp [hk, hne, Option.guard]
 
+/-! ### `demo_events` -/
+
+theorem ddAppendAll_append {κ ν : Type} [DecidableEq κ] (d : PyDD κ ν) (a b : List (κ × ν)) : ddAppendAll (ddAppendAll d a) b = ddAppendAll d (a ++ b) := by
+  unfold ddAppendAll
+  rw [List.foldl_append]
+
+theorem foldl_ddAppend_map {κ ν α : Type} [DecidableEq κ] (k : α → κ) (v : α → ν) (l : List α) (d : PyDD κ ν) :
+    List.foldl (fun d x => ddAppend d (k x) (v x)) d l = ddAppendAll d (l.map fun x => (k x, v x)) := by
+  unfold ddAppendAll
+  rw [List.foldl_map]
+
+theorem filterMap_ite {α β : Type} (c : α → Bool) (h : α → β) (l : List α) : l.filterMap (fun x => if c x then some (h x) else none) = (l.filter c).map h := by
+  induction l with
+  | nil => rfl
+  | cons x xs ih =>
+    simp only [List.filterMap_cons, List.filter_cons]
+    cases c x <;> simp [ih]
+
+theorem all_congr_mem {α : Type} (f g : α → Bool) (l : List α) (h : ∀ x ∈ l, f x = g x) : l.all f = l.all g := by
+  induction l with
+  | nil => rfl
+  | cons a t ih => simp only [List.all_cons, h a List.mem_cons_self, ih (fun x hx => h x (List.mem_cons_of_mem _ hx))]
+
+/-- **`demo_events`** is the list `demoEvents` of the model, appended in its order to an empty dict keyed by the event time -/
+theorem evOf_eq (hmarg : ∀ (sp : List DName) (d : DName) (e : ETime) (ss : List ETime),
+      marginalizeCond sp d e ss = ((!sp.contains d) && ((ss.length == 0) || (ss.all fun s => (!tle s e)))))
+    (g : Graph InEpoch) (hnd : (g.demes.map (·.name)).Nodup) (lib : LibEvents) (sp : List DName) :
+    evOf g lib sp = ddAppendAll [] (demoEvents g lib.toList sp) := by
+  unfold evOf
+  rw [foldl_ddAppend_map (fun p : LPulse => (some p.time : ETime)) (fun p => DEvt.pulses p.sources p.dest p.proportions),
+    foldl_ddAppend_map (fun p : LBranch => (some p.time : ETime)) (fun p => DEvt.branch p.parent p.child),
+    foldl_ddAppend_map (fun p : LMerge => (some p.time : ETime)) (fun p => DEvt.merge p.parents p.proportions p.child),
+    foldl_ddAppend_map (fun p : LMerge => (some p.time : ETime)) (fun p => DEvt.admix p.parents p.proportions p.child),
+    foldl_ddAppend_map (fun p : LSplit => (some p.time : ETime)) (fun p => DEvt.split p.parent p.children)]
+  rw [foldl_filter' (fun p13 : DName × List DName => (!sp.contains p13.1 && (p13.2.length == 0 || p13.2.all fun (x14 : DName) => tgt (g.startTimeOf x14) (g.endTimeOf p13.1))))
+    (fun (d : PyDD ETime DEvt) p13 => ddAppend d (g.endTimeOf p13.1) (DEvt.marginalize p13.1))]
+  rw [foldl_ddAppend_map (fun p13 : DName × List DName => g.endTimeOf p13.1) (fun p13 => DEvt.marginalize p13.1)]
+  simp only [ddAppendAll_append]
+  congr 1
+  unfold demoEvents LibEvents.toList
+  simp only [List.map_append, List.map_map, List.append_assoc]
+  congr 1; congr 1; congr 1; congr 1; congr 1
+  -- the marginalisations
+  unfold Graph.successors
+  rw [List.filter_map, List.map_map, filterMap_ite (fun d : GDeme InEpoch =>
+      marginalizeCond sp d.name d.endTime ((g.demes.filter fun x => x.ancestors.contains d.name).map (·.start))) (fun d => (d.endTime, DEvt.marginalize d.name))]
+  have hc : ∀ d ∈ g.demes, ((fun p13 : DName × List DName => (!sp.contains p13.1 && (p13.2.length == 0 || p13.2.all fun (x14 : DName) => tgt (g.startTimeOf x14) (g.endTimeOf p13.1))))
+        ∘ fun d : GDeme InEpoch => (d.name, (g.demes.filter fun x => x.ancestors.contains d.name).map (·.name))) d
+      = marginalizeCond sp d.name d.endTime ((g.demes.filter fun x => x.ancestors.contains d.name).map (·.start)) := by
+    intro d hd
+    rw [hmarg]
+    simp only [Function.comp, List.length_map, List.all_map, endTimeOf_name g hnd d hd]
+    congr 2
+    apply all_congr_mem
+    intro x hx
+    have hxm : x ∈ g.demes := (List.mem_filter.1 hx).1
+    simp only [Function.comp, startTimeOf_name g hnd x hxm, tgt]
+  rw [List.filter_congr hc]
+  apply List.map_congr_left
+  intro d hd
+  have hdm : d ∈ g.demes := (List.mem_filter.1 hd).1
+  simp only [Function.comp, endTimeOf_name g hnd d hdm]
+
+theorem ddGet_evOf (hmarg : ∀ (sp : List DName) (d : DName) (e : ETime) (ss : List ETime),
+      marginalizeCond sp d e ss = ((!sp.contains d) && ((ss.length == 0) || (ss.all fun s => (!tle s e)))))
+    (g : Graph InEpoch) (hnd : (g.demes.map (·.name)).Nodup) (lib : LibEvents) (sp : List DName) (t : ETime) :
+    ddGet (evOf g lib sp) t = eventsAt (demoEvents g lib.toList sp) t := by
+  rw [evOf_eq hmarg g hnd, ddGet_appendAll, ddGet_nil, List.nil_append]
+  unfold eventsAt
+  congr 1
+  apply List.filter_congr
+  intro p _
+  cases h : teq p.1 t
+  · have : ¬ p.1 = t := fun e => by rw [(teq_iff p.1 t).2 e] at h; cases h
+    simp [this]
+  · simp [(teq_iff p.1 t).1 h]
+
+/-- the two guards of `_get_demographic_events` in terms of the graph: some deme starts at `inf`, and exactly one does -/
+theorem rootOk_eq (g : Graph InEpoch) :
+    rootOk g = ((g.demes.any fun d => decide (d.start = none)) && ((g.demes.filter fun d => decide (d.start = none)).length == 1)) := by
+  unfold rootOk
+  have hk : (ddKeys (dstOf g)).contains none = g.demes.any fun d => decide (d.start = none) := by
+    rw [Bool.eq_iff_iff, List.contains_iff_mem, dstOf_eq, mem_keys_appendAll]
+    simp only [ddKeys, List.map_nil, List.not_mem_nil, false_or, List.map_map, List.mem_map, Function.comp, List.any_eq_true, decide_eq_true_eq]
+  have hl : (ddGet (dstOf g) none).length = (g.demes.filter fun d => decide (d.start = none)).length := by
+    rw [dstOf_eq, ddGet_appendAll, ddGet_nil, List.nil_append, List.length_map, List.filter_map, List.length_map]
+    rfl
+  rw [hk, hl]
+  cases (g.demes.any fun d => decide (d.start = none)) <;> simp [bne]
+
+/-- **what `_get_demographic_events` returns.**  For a graph whose deme names are distinct: it raises unless exactly one deme starts at
+    `inf`; otherwise it returns two dicts `(demo_events, demes_present)` such that
+    * a read `demo_events[t]` gives the events of the model's `demoEvents` at `t`, in its order (the library's pulses, branches, mergers,
+      admixtures, splits, then the marginalisations);
+    * `sorted(demes_present.items())[::-1]` is the model's `demesPresent` (the intervals between consecutive break points in which some deme
+      is alive, oldest first, each with the names of its demes by descending start time, graph order within one start time), and
+      `sorted(list(demes_present.keys()))[::-1]` its intervals;
+    * a read `demes_present[iv]` gives the names of `liveIn` for an integration interval, nothing otherwise. -/
+theorem getDemographicEventsRef_spec (hpres : ∀ s e i0 i1 : ETime, demePresent s e i0 i1 = (tge s i0 && tle e i1))
+    (hmarg : ∀ (sp : List DName) (d : DName) (e : ETime) (ss : List ETime),
+      marginalizeCond sp d e ss = ((!sp.contains d) && ((ss.length == 0) || (ss.all fun s => (!tle s e)))))
+    (g : Graph InEpoch) (hnd : (g.demes.map (·.name)).Nodup) (lib : LibEvents) (sp : List DName) :
+    getDemographicEventsRef g lib sp
+        = (if (g.demes.any fun d => decide (d.start = none)) && ((g.demes.filter fun d => decide (d.start = none)).length == 1)
+           then some (evOf g lib sp, presOf g) else none)
+    ∧ (∀ t, ddGet (evOf g lib sp) t = eventsAt (demoEvents g lib.toList sp) t)
+    ∧ pySortedItemsDesc (presOf g) = (demesPresent g).map (fun p => (p.1, p.2.map (·.name)))
+    ∧ pySortedKeysDesc (ddKeys (presOf g)) = (demesPresent g).map (·.1)
+    ∧ ∀ iv, ddGet (presOf g) iv = if iv ∈ intervals g then (liveIn g iv.1 iv.2).map (·.name) else [] := by
+  refine ⟨?_, ddGet_evOf hmarg g hnd lib sp, (sorted_presOf hpres g hnd).1, (sorted_presOf hpres g hnd).2, ddGet_presOf hpres g hnd⟩
+  rw [getDemographicEventsRef_eq, rootOk_eq]
+
 end DadiVerif.DemesConv
